@@ -22,6 +22,7 @@ import (
 // actions of AddrCases.tla and a predicate telling the states each produces
 var actionKinds = map[string]func(rawCase) bool{
 	"PickNet":        func(r rawCase) bool { return r.kind == "net" },
+	"PickMixed":      func(r rawCase) bool { return r.kind == "mixed" },
 	"PickBech":       func(r rawCase) bool { return r.kind == "bech" && !isDefectRow(r) },
 	"PickBechDefect": func(r rawCase) bool { return r.kind == "bech" && isDefectRow(r) },
 	"PickB58":        func(r rawCase) bool { return r.kind == "b58" },
@@ -260,6 +261,8 @@ func replayCases(c *vrun.Ctx, cases []rawCase) (*world, error) {
 		case "root", "group":
 		case "net":
 			err = w.checkNet(c, rc)
+		case "mixed":
+			err = b.runMixed(c, rc)
 		case "bech":
 			err = b.runBech(c, rc)
 		case "b58":
